@@ -59,6 +59,15 @@ def map_differential(ctx):
             bad.append({"chunksize": n, "iterables": its, "chunk_sizes": [len(c) for c in chunks]})
         if k == 1 and len(coq_cases) < 150:
             coq_cases.append((n, its[0], [x[0] for x in got]))
+        # iterables that share state (the zip(it, it) idiom, generators draining one stream): builtin map takes one item from each
+        # iterable per call
+        base = [rng.randrange(50) for _ in range(rng.choice([0, 1, 4, 7, 12, 25]))]
+        reps = rng.choice([2, 2, 3])
+        it1, it2 = iter(base), iter(base)
+        got2 = list(pe._chain_from_iterable_of_lists(map(partial(pe._process_chunk, fn), pe._get_chunks(n, *([it1] * reps)))))
+        want2 = list(map(fn, *([it2] * reps)))
+        if got2 != want2:
+            bad.append({"chunksize": n, "shared_iterator_over": base, "passed_times": reps, "got": got2[:12], "want": want2[:12]})
     model_ok = None
     if os.path.exists(os.path.join(vlib.COQ, "Gen", "MapPath.vo")):
         txt = ("From Coq Require Import List Arith Bool.\nFrom LokyV Require Import Lib.MapLib Gen.MapPath.\nImport ListNotations.\n"
